@@ -1,6 +1,7 @@
 package harness
 
 import (
+	"strings"
 	"encoding/json"
 	"fmt"
 	"time"
@@ -19,8 +20,16 @@ func init() {
 }
 
 func scenarioC19(r *Run) {
+	if r.Ch.Choose(5, "datapath") == 1 {
+		scenarioC19UP4(r)
+		return
+	}
 	r.Conf = DefaultBESSConf()
 	r.DrawStrategy()
+	if r.Ch.Choose(3, "slow-bess") == 1 {
+		// a datapath that answers late (inside its 1 s deadline)
+		r.W.Bess.Faults.SlowDen, r.W.Bess.Faults.SlowBy = 2, []time.Duration{300 * time.Microsecond, 5 * time.Millisecond, 200 * time.Millisecond}[r.Ch.Choose(3, "slow-by")]
+	}
 	r.StartAgent()
 	if !r.AgentAlive() {
 		r.CheckNoPanics("C19")
@@ -83,7 +92,14 @@ func scenarioC19(r *Run) {
 			doc["sliceQos"].(map[string]any)["bitrateUnit"] = un
 		}
 		body, _ := json.Marshal(doc)
-		switch r.Ch.Choose(9, "bodyclass") {
+		switch r.Ch.Choose(10, "bodyclass") {
+		case 9:
+			// the client goes away while the handler works (its own timeout, a proxy
+			// reset): no answer is read, but the datapath must end up with what was
+			// posted in both directions, or untouched
+			class = "client-gone"
+			req.CancelAfter = []time.Duration{20 * time.Microsecond, 150 * time.Microsecond, 400 * time.Microsecond, 2 * time.Millisecond, 50 * time.Millisecond, 300 * time.Millisecond}[r.Ch.Choose(6, "gone-after")]
+			r.Fault("http-client-gone-during-request")
 		case 7:
 			// a complete document followed by something: malformed as a whole
 			class = "trailing-data"
@@ -126,6 +142,41 @@ func scenarioC19(r *Run) {
 			return
 		}
 		r.Sim.RunFor(5 * time.Millisecond)
+		if class == "client-gone" {
+			r.Sim.RunFor(1500 * time.Millisecond) // whatever RPC is still on its way completes or times out
+			after := sliceCmds()[before:]
+			r.Op("%s, client gone after %v (%s ul=%d dl=%d) -> %d slice-meter commands", method, req.CancelAfter, un, ul, dl, len(after))
+			r.Skel(fmt.Sprintf("%s:client-gone:%d", method, len(after)))
+			if req.Panicked {
+				r.Violate("C19", "handler-panic:"+class, "the handler panicked when the client went away")
+				return
+			}
+			isWrite := method == "POST" || method == "PUT"
+			fits := func(v uint64) bool { return v != 0 && v <= ((uint64(1)<<63)-1)/unit }
+			if !isWrite {
+				if len(after) != 0 {
+					r.Violate("C19", "datapath-touched:"+class, "%s (client gone) but %d slice-meter command(s) reached the datapath", method, len(after))
+					return
+				}
+				continue
+			}
+			if !fits(ul) || !fits(dl) {
+				continue
+			}
+			if len(after) != 0 && len(after) != 2 {
+				r.Violate("C19", "slice-meter-half-programmed:client-gone", "%s of ul=%d dl=%d %s whose client went away after %v: %d slice-meter command reached the datapath (both directions or none expected)", method, ul, dl, un, req.CancelAfter, len(after))
+				return
+			}
+			if len(after) == 2 {
+				up, dn := b.Qos["sliceMeter"]["1,0"], b.Qos["sliceMeter"]["0,1"]
+				if up == nil || dn == nil || up.Pir != ul*unit/8 || dn.Pir != dl*unit/8 {
+					r.Violate("C19", "slice-meter-rate:client-gone", "posted uplink %d / downlink %d %s (client gone): programmed entries do not carry these rates", ul, dl, un)
+					return
+				}
+				n201++
+			}
+			continue
+		}
 		after := sliceCmds()[before:]
 		r.Op("%s %s body (%s ul=%d dl=%d) -> %d (WriteHeader x%d), %d slice-meter commands", method, class, un, ul, dl, req.Status, req.WriteHeaders, len(after))
 		r.Skel(fmt.Sprintf("%s:%s:%d", method, class, req.Status))
@@ -198,6 +249,94 @@ func scenarioC19(r *Run) {
 	}
 	if n201 > 0 && nOther > 0 {
 		r.Probe("accepted-and-refused-in-one-run")
+	}
+	r.CheckNoPanics("C19")
+}
+
+
+// scenarioC19UP4: the slice endpoint on the P4Runtime datapath. The document is
+// posted while the agent is still setting up its channel to the switch, after
+// the switch restarted its P4Runtime server, or in steady state: as long as the
+// switch is up, 201 means the slice meter cell was written.
+func scenarioC19UP4(r *Run) {
+	r.DrawUP4Conf()
+	r.DrawStrategy()
+	r.Sim.StepCost = 0 // the start-up loops over whole meter arrays would take minutes of virtual time
+	sw := r.W.P4
+	r.StartAgent()
+	if !r.AgentAlive() {
+		r.CheckNoPanics("C19")
+		return
+	}
+	when := r.Ch.Choose(3, "when")
+	switch when {
+	case 0: // right after start: the agent's first connection round may not be through yet
+		r.Sim.RunFor(time.Duration(r.Ch.Choose(3000, "early-us")) * time.Microsecond)
+	default:
+		if !r.WaitUP4Ready() {
+			r.CheckNoPanics("C19")
+			return
+		}
+		r.Sim.RunFor(50 * time.Millisecond)
+	}
+	r.Skel(fmt.Sprintf("up4 when=%d", when))
+	mid := int64(sw.ID(mSlice))
+	for k := 0; k < 1+r.Ch.Choose(4, "nreq") && r.AgentAlive() && len(r.Violations) == 0; k++ {
+		if when == 2 || (k > 0 && r.Ch.Choose(3, "restart") == 1) {
+			sw.Restart(true)
+			r.Fault("p4-stream-broken-by-switch-restart")
+			r.Sim.RunFor(time.Duration(10+r.Ch.Choose(3000, "after-restart-ms")) * time.Millisecond)
+			when = 1
+		}
+		ul, dl := uint64(1+r.Ch.Choose(1<<20, "ul")), uint64(1+r.Ch.Choose(1<<20, "dl"))
+		body := []byte(fmt.Sprintf(`{"sliceName":"s1","sliceQos":{"uplinkMbr":%d,"downlinkMbr":%d,"bitrateUnit":"Kbps","uplinkBurstSize":%d,"downlinkBurstSize":%d}}`, ul, dl, 1+r.Ch.Choose(1<<20, "b1"), 1+r.Ch.Choose(1<<20, "b2")))
+		req := &vsimenv.HTTPReq{Method: []string{"POST", "PUT"}[r.Ch.Choose(2, "method")], Path: "/v1/config/network-slices", Body: body}
+		before := len(sw.WriteLog)
+		if !r.W.HTTP.Submit(r.Inc, req) {
+			r.Violate("C19", "http-not-listening", "the HTTP endpoint is not served")
+			return
+		}
+		r.Sim.RunUntil(func() bool { return req.Done }, r.until(40*time.Second))
+		if !req.Done {
+			if r.AgentAlive() {
+				r.Violate("C19", "http-request-hangs:up4", "%s did not complete within 40 s\n%s", req.Method, strings.Join(r.Sim.BlockedTable(), "\n"))
+			}
+			return
+		}
+		r.Sim.RunFor(5 * time.Millisecond)
+		wrote := 0
+		for _, w := range sw.WriteLog[before:] {
+			if w.Failed == "" && strings.Contains(w.Summary, fmt.Sprintf("MOD:M%d[", mid)) {
+				wrote++
+			}
+		}
+		r.Op("UP4 %s ul=%d dl=%d Kbps -> %d, %d slice meter write(s)", req.Method, ul, dl, req.Status, wrote)
+		if req.WriteHeaders != 1 {
+			r.Violate("C19", fmt.Sprintf("writeheader-count:up4:%d", req.WriteHeaders), "WriteHeader called %d times", req.WriteHeaders)
+			return
+		}
+		if req.Status == 201 {
+			r.Accepted++
+			if wrote == 0 {
+				r.Violate("C19", "slice-meter-not-written:up4", "%s of a well-formed document answered 201 while the switch was up (posted %s after the agent start / a switch restart), but no write of the slice meter cell reached the switch", req.Method, []string{"right", "well"}[min(when, 1)])
+				return
+			}
+			want := ul
+			if dl > want {
+				want = dl
+			}
+			got := int64(-1)
+			for _, c := range sw.Meters[uint32(mid)] {
+				got = c.Pir
+			}
+			if got != int64(want*1000) {
+				r.Violate("C19", "slice-meter-rate:up4", "posted uplink %d / downlink %d Kbps: slice meter peak rate %d, expected %d (the larger of the two, converted by the unit)", ul, dl, got, want*1000)
+				return
+			}
+		} else if req.Status != 201 {
+			r.Violate("C19", "status:up4:wellformed", "%s of a well-formed document answered %d", req.Method, req.Status)
+			return
+		}
 	}
 	r.CheckNoPanics("C19")
 }
